@@ -82,6 +82,7 @@ type Exec struct {
 	stableCache  []*ssa.Global
 	roInit       map[string]Term // reference (constant term) of a read-only package variable -> its initialiser
 	frameEvals, minRegionsAtFrame int
+	uremSeen     map[string]bool
 	topGhosts    map[string]Val // ghost variables / lets of the function under verification (visible in its loop invariants)
 	ifaceOrigin  map[string]ifaceOrg // interface term (as named by its MakeInterface) -> dynamic type and boxed value
 	dirty        map[string]bool // heap regions in which an object that existed at entry may have been written
